@@ -155,7 +155,10 @@ class Contract:
         self.returns = returns          # T of the result (None = no value)
         self.yields = yields            # T of one yielded element (generator)
         self.requires = list(requires)  # [str]
-        self.ensures = list(ensures)    # [(label, str)]
+        # [(label, str)]; an entry may carry a third item: the labels of the hypotheses (callee clauses, loop invariants)
+        # its proof needs -- the other tagged hypotheses are then left out of its obligation
+        self.ensure_needs = {e[0]: list(e[2]) for e in ensures if not isinstance(e, str) and len(e) > 2 and e[2] is not None}
+        self.ensures = [e if isinstance(e, str) else (e[0], e[1]) for e in ensures]
         self.loops = loops or {}        # ordinal -> dict(inv=[(label,str)], vars={name:T}, decreases=str)
         self.modifies = tuple(modifies)
         self.raises = raises            # dict(exc='ValueError', when=str) or None
